@@ -384,6 +384,10 @@ type built struct {
 	genGiven  []int    // generated columns given an explicit value at all
 	checkViol []string // enforced checks that are FALSE on the row
 	defaulted []int    // omitted / DEFAULT columns that received their declared default
+	// nullDefault: NOT NULL columns whose declared expression default evaluated to NULL
+	// (subset of nullViol). MySQL's IGNORE adjusts them like any other NULL; the engine
+	// rejects the statement - the property statement allows both.
+	nullDefault []int
 }
 
 func (b *built) ok() bool {
@@ -428,6 +432,9 @@ func (t *table) build(cells []cell, adjust bool) *built {
 		}
 		if c.notNull && b.row[i].null {
 			b.nullViol = append(b.nullViol, i)
+			if !cells[i].given && c.def != nil {
+				b.nullDefault = append(b.nullDefault, i)
+			}
 			if adjust {
 				b.row[i] = zero(c.k)
 			}
